@@ -102,7 +102,7 @@ func H_C12_cam() {
 		if a.sample || b.sample {
 			return
 		}
-		pred = fFilter{pb: &btpb.RowFilter{Filter: &btpb.RowFilter_Chain_{Chain: &btpb.RowFilter_Chain{Filters: []*btpb.RowFilter{a.pb, b.pb}}}}}
+		pred = fFilter{pb: &btpb.RowFilter{Filter: &btpb.RowFilter_Chain_{Chain: &btpb.RowFilter_Chain{Filters: []*btpb.RowFilter{a.pb, b.pb}}}}, rowLvl: a.rowLvl}
 		pred.ev = func(in []fCell) ([]fCell, bool) {
 			mid, inv1 := a.ev(in)
 			out, inv2 := b.ev(mid)
@@ -121,8 +121,9 @@ func H_C12_cam() {
 		var po []fCell
 		po, pinv = pred.ev(cells)
 		matched = fAny(po)
-		if len(cells) == 0 {
-			// nothing to evaluate the predicate on: lazy validation is not asserted
+		if len(cells) == 0 && !pred.rowLvl {
+			// a per-cell predicate has nothing to be evaluated on: lazy validation is not asserted.
+			// Row-level predicates (flags, limits, offsets) are validated even on a row without cells.
 			vAssume(vNot(pinv))
 		}
 	}
